@@ -322,6 +322,15 @@ func (w *World) opWeights() []int {
 			case "key-construct", "key-access", "caller-mutation":
 				b /= 4
 			}
+		case "C14":
+			switch k.name {
+			case "key-construct":
+				b *= 6
+			case "point-rescale", "point-grouplaw", "point-mul":
+				b *= 2
+			case "scalar-arith", "scalar-decode", "h2c", "point-observe":
+				b /= 4
+			}
 		case "C19":
 			switch k.name {
 			case "point-mul", "point-multi", "key-construct":
